@@ -448,11 +448,11 @@ fn add_intersecting_format2_patches(
     };
 
     for (order, e) in entries.iter().enumerate() {
-        if e.ignored {
-            continue;
-        }
-
-        if !entry_intersection_cache.intersects(order, subset_definition) {
+        // Entries are evaluated in order, including ignored ones: child indices always refer to prior entries,
+        // so every child is already cached and the recursion in the cache never goes deeper than one level
+        // (a long chain of ignored entries would otherwise exhaust the stack).
+        let intersects = entry_intersection_cache.intersects(order, subset_definition);
+        if e.ignored || !intersects {
             continue;
         }
 
